@@ -283,6 +283,30 @@ def r5(ctx):
             if not okf:
                 break
     rep.check(okf, "frame-returned-as-is", "a decoded frame is returned unchanged and the buffer is left to the decoder", "read_frame alters the buffer or the frame after a successful decode", b.loc())
+    # (c) every decoded frame is handed to the caller: once decode has produced a request, read_frame returns it (or an
+    # error) — it never goes back to reading, which would drop the request without an answer
+    for kind in ("frame", "toolarge"):
+        models3 = dict(models)
+        models3["tokio_util::codec::Decoder::decode"] = m_decode_opaque(kind)
+        I = Interp(f, models=models3, policy=conn_opaque, loop_bound=1)
+        dropped = None
+        n = 0
+        for p in I.run(b, [cor, P("cx")]):
+            if kind == "frame" and p.state.discr.get(("frame",)) == 26:
+                continue  # the oversized arm is the other case
+            n += 1
+            var, pl = variant_of(p.ret)
+            decodes = [e for e in p.events if e.kind == "call" and e.name == "decode"]
+            reads = [e for e in p.events if e.kind == "buf" and e.name == "read_buf" and e.extra.get("buf") == BUFT]
+            if p.cut or len(decodes) != 1 or reads:
+                dropped = "goes back to reading the socket / decoding again"
+            elif var == "Ok" and variant_of(pl)[0] != "Some":
+                dropped = "returns 'no frame'"
+            elif var == "Ok" and kind == "toolarge":
+                fr = variant_of(pl)[1]
+                if not (isinstance(fr, Struct) and fr.variant == "ItemTooLarge" and P("request") in atoms(tform(fr))):
+                    dropped = "returns %s instead of the oversized request" % short(fr, 50)
+        rep.check(dropped is None and n > 0, "decoded-frame-is-returned[%s]" % ("request" if kind == "frame" else "oversized"), "a decoded %s is returned to the caller" % ("request" if kind == "frame" else "oversized request (after its body was discarded)"), "after decode produced %s, read_frame %s: the request is dropped without an answer" % ("a request" if kind == "frame" else "an oversized request", dropped or "has no path"), b.loc())
     # (c) census: who touches the connection buffer
     users = set()
     for body in f.bodies.values():
